@@ -23,10 +23,12 @@ def run(ctx):
     ctx.rule('C14.R2', 'mtime written to the destination == source FileMeta.mtime of the same path (pure copy chain)', floor=3)
     ctx.rule('C14.R3', 'units: whole epoch seconds at every writer/reader pair', floor=4)
     ctx.rule('C14.R4', 'the result of setting the mtime is not discarded', floor=2)
+    ctx.rule('C14.R6', 'every local FileMeta takes size and mtime from one link-following stat of the path that is delivered', floor=1)
     C19.plan_rules(ctx, F, 'C14.R5')
     r2(ctx, F)
     r3(ctx, F)
     r4(ctx, F)
+    r6(ctx, F)
 
 
 def loop_mtime_ok(F, body, arg_op):
@@ -207,3 +209,55 @@ def r4(ctx, F):
                       'exits 0, the destination keeps the copy time and the file is re-sent on every following run', term_loc(b, sb))
     if n < 2:
         ctx.missing('C14.R4', 'set_local_mtime call sites (found %d)' % n)
+
+
+STAT_FOLLOW = ('std::fs::metadata', 'std::fs::File::metadata', 'std::path::Path::metadata', 'tokio::fs::metadata')
+STAT_NOFOLLOW = ('std::fs::symlink_metadata', 'std::fs::DirEntry::metadata', 'std::path::Path::symlink_metadata', 'tokio::fs::symlink_metadata')
+
+
+def r6(ctx, F):
+    """The quick check compares (size, mtime) of what was delivered.  Delivery opens the path (following links) and the tree
+    walk admits entries by Path::is_file (following links), so the stat recorded for the entry must follow links too, and both
+    fields must come from the same stat result."""
+    n = 0
+    for body in F.bodies.values():
+        if body.path.startswith('meta::tests') or '::tests::' in body.path:
+            continue
+        fl = flow_of(body)
+        for bi in fl.cfg.reachable():
+            for st in body.blocks[bi]['stmts']:
+                rv = st['rv']
+                if not (rv['k'] == 'agg' and rv.get('adt') == 'plan::FileMeta'):
+                    continue
+                fields = dict(zip(rv.get('fields') or ['size', 'mtime'], rv['ops']))
+                so = [o for o in fl.origins(fields['size']) if o.kind != 'comb']
+                lens = [o for o in so if o.kind == 'call' and o.key == 'std::fs::Metadata::len']
+                if not lens or len(lens) != len(so):
+                    continue    # not built from a local stat (the remote listing parser builds it from text)
+                n += 1
+                key = '%s:FileMeta' % body.path.split('::{')[0]
+                stats = set()
+                for o in lens:
+                    stats |= {(x.kind, x.key, x.bb) for x in call_arg_origins(fl, o.bb, 0) if x.kind != 'comb'}
+                mstats = set()
+                mo = [o for o in fl.origins(fields['mtime']) if o.kind != 'comb']
+                via = all(o.kind == 'call' and o.key == 'meta::mtime_secs' for o in mo) and bool(mo)
+                for o in mo:
+                    if o.kind == 'call':
+                        mstats |= {(x.kind, x.key, x.bb) for x in call_arg_origins(fl, o.bb, 0) if x.kind != 'comb'}
+                ctx.check(via and mstats == stats, 'C14.R6', key + ':one-stat', 'size = m.len() and mtime = mtime_secs(m) of the same Metadata',
+                          'size and mtime of a FileMeta are not taken from the same stat result', loc(body, st.get('line') or body.lo))
+                for (k, c, sbb) in sorted(stats, key=str):
+                    if k == 'call' and c in STAT_FOLLOW:
+                        ok, why = True, ''
+                    elif k == 'call' and c in STAT_NOFOLLOW:
+                        # acceptable only where symlinks were excluded on this path
+                        guards = [gb for gb, gt in fl.calls_to('std::path::Path::is_symlink')
+                                  if fl.outcomes(gb).get('false') and fl.cfg.edges_guard(fl.outcomes(gb)['false'], bi)]
+                        ok = bool(guards)
+                        why = '%s does not follow symbolic links, while the walk (Path::is_file) and the delivery (open/copy) do: a link to a file is compared by the size and mtime of the link itself and re-sent on every run' % c
+                    else:
+                        ok, why = False, 'the Metadata comes from %s, not from a recognised stat call' % (c,)
+                    ctx.check(ok, 'C14.R6', key + ':stat-follows-links', 'Metadata from %s' % c, why, term_loc(body, sbb) if k == 'call' else loc(body, body.lo))
+    if n == 0:
+        ctx.missing('C14.R6', 'a FileMeta built from a local stat')
